@@ -20,15 +20,16 @@ Trace == ndJsonDeserialize(IOEnv.VERIF_TRACE)
 Cfg   == JsonDeserialize(IOEnv.VERIF_TRACECFG)
 Known == Cfg.known
 
-VARIABLES l, viol, info, exp, reqs, seqN, ivs, incall
-vars == <<l, viol, info, exp, reqs, seqN, ivs, incall>>
+VARIABLES l, viol, info, exp, reqs, seqN, ivs, incall, fired
+vars == <<l, viol, info, exp, reqs, seqN, ivs, incall, fired>>
 NoRec == [none |-> TRUE]
-Init == l = 1 /\ viol = {} /\ info = NoRec /\ exp = NoRec /\ reqs = <<>> /\ seqN = 0 /\ ivs = {} /\ incall = FALSE
+Init == l = 1 /\ viol = {} /\ info = NoRec /\ exp = NoRec /\ reqs = <<>> /\ seqN = 0 /\ ivs = {} /\ incall = FALSE /\ fired = {}
 
 Ev == Trace[l]
 Has(r, f) == f \in DOMAIN r
 InSess == Has(info, "insess") /\ info.insess
 Prop == IF Has(exp, "prop") THEN exp.prop ELSE "HARNESS"
+Agrees(got, want) == \A k \in DOMAIN want : k \in DOMAIN got /\ got[k] = want[k]
 Check(prop, pred_, ok) == IF ok THEN {} ELSE
    {[prop |-> prop, pred |-> pred_, ctx |-> [family |-> IF Has(info, "family") THEN info.family ELSE "?"]]}
 
@@ -78,6 +79,16 @@ RetViol(e) ==
                  ELSE IF x.outcome = "oneofOrError"
                  THEN Check(x.prop, "result-is-allowed-value-or-error",
                             e.err \/ (Has(e, "value") /\ \E i \in 1..Len(x.values) : e.value = x.values[i]))
+                 ELSE IF x.outcome = "sdrmapByRule"
+                 THEN LET want == IF x.rule \in fired THEN x.ifFired ELSE x.ifNot IN
+                      Check(x.prop, "succeeds-where-specification-has-a-result", ~e.err)
+                      \cup (IF e.err THEN {} ELSE
+                            Check(x.prop, "returns-exactly-the-full-sensor-records-each-once", Has(e, "value") /\ Len(e.value) = Len(want))
+                            \cup Check(x.prop, "records-under-their-own-ids",
+                                       Has(e, "value") /\ Len(e.value) = Len(want) => \A i \in 1..Len(want) : e.value[i].k = want[i].k)
+                            \cup Check(x.prop, "fields-equal-reference-decoding-of-one-repository-state",
+                                       (Has(e, "value") /\ Len(e.value) = Len(want) /\ \A i \in 1..Len(want) : e.value[i].k = want[i].k)
+                                          => \A i \in 1..Len(want) : Agrees(e.value[i].v, want[i].v)))
                  ELSE IF x.outcome = "float"
                  THEN Check(x.prop, "succeeds-where-specification-has-a-result", ~e.err)
                  ELSE {})
@@ -94,15 +105,16 @@ NewViol == LET e == Ev IN
 Step ==
   LET e == Ev IN
   CASE e.ev = "reset" -> /\ info' = (IF Has(e, "info") THEN e.info ELSE NoRec) /\ exp' = NoRec /\ reqs' = <<>> /\ seqN' = 0 /\ ivs' = {}
-                         /\ incall' = FALSE
-    [] e.ev = "call" -> /\ exp' = (IF Has(e, "exp") THEN e.exp ELSE NoRec) /\ reqs' = <<>> /\ incall' = TRUE
+                         /\ incall' = FALSE /\ fired' = {}
+    [] e.ev = "call" -> /\ exp' = (IF Has(e, "exp") THEN e.exp ELSE NoRec) /\ reqs' = <<>> /\ incall' = TRUE /\ fired' = {}
                         /\ UNCHANGED <<info, seqN, ivs>>
     [] e.ev = "tx" -> /\ reqs' = Append(reqs, Abstract(e))
                       /\ seqN' = (IF InSess THEN seqN + 1 ELSE seqN)
                       /\ ivs' = (IF InSess /\ Len(e.raw) >= 32 THEN ivs \cup {Sub(e.raw, 16, 32)} ELSE ivs)
+                      /\ fired' = (IF Has(e, "rule") THEN fired \cup {e.rule} ELSE fired)
                       /\ UNCHANGED <<info, exp, incall>>
-    [] e.ev = "ret" -> /\ incall' = FALSE /\ UNCHANGED <<info, exp, reqs, seqN, ivs>>
-    [] OTHER -> UNCHANGED <<info, exp, reqs, seqN, ivs, incall>>
+    [] e.ev = "ret" -> /\ incall' = FALSE /\ UNCHANGED <<info, exp, reqs, seqN, ivs, fired>>
+    [] OTHER -> UNCHANGED <<info, exp, reqs, seqN, ivs, incall, fired>>
 
 IsKnown(v) == \E i \in 1..Len(Known) : LET k == Known[i] IN k.prop = v.prop /\ k.pred = v.pred
 Next == /\ l <= Len(Trace)
